@@ -34,6 +34,27 @@ theorem approx_refl (a : α) : Spec.approx a a = true := by
 
 theorem approx_of_eq (a b : α) (h : a = b) : Spec.approx a b = true := h ▸ approx_refl a
 
+/-- the scaled tolerance accepts equal values whatever the scale is (negative scales included) -/
+theorem approxS_refl (s a : α) : Spec.approxS s a a = true := by
+  have h0 : Spec.absS (a - a) = 0 := by simp [Spec.absS]
+  have habs : (0 : α) ≤ Spec.absS a := by
+    unfold Spec.absS
+    split
+    · rename_i h; exact (neg_pos.mpr h).le
+    · rename_i h; exact not_lt.mp h
+  simp only [Spec.approxS, decide_eq_true_eq, h0]
+  apply mul_nonneg
+  · apply div_nonneg <;> exact Nat.cast_nonneg _
+  · have h1 : (0 : α) ≤ Spec.maxS (Spec.absS a) (Spec.absS a) := le_trans habs (maxS_ge_left _ _)
+    show (0 : α) ≤ Spec.maxS s (Spec.maxS (Spec.absS a) (Spec.absS a))
+    generalize Spec.maxS (Spec.absS a) (Spec.absS a) = m at h1
+    unfold Spec.maxS
+    split
+    · exact h1
+    · rename_i h; exact le_trans h1 (not_lt.mp h)
+
+theorem approxS_of_eq (s a b : α) (h : a = b) : Spec.approxS s a b = true := h ▸ approxS_refl s a
+
 /-- `conserve` accepts the fully written haplotype matrix of the model -/
 theorem conserve_sound {β : Type} [DecidableEq β] (l : List β) (hne : l ≠ []) (geno : List (List (List α)))
     (ucols : List (List α)) (hg : ∀ gm ∈ geno, ∀ g ∈ gm, g.length = l.length)
@@ -49,7 +70,7 @@ theorem conserve_sound {β : Type} [DecidableEq β] (l : List β) (hne : l ≠ [
   rw [getD_map_lt (geno.getD m []) _ i hi' [] []]
   refine ⟨by simp [blockPairs_length], ?_⟩
   intro t ht
-  apply approx_of_eq
+  apply approxS_of_eq
   have hgm : geno.getD m [] ∈ geno := getD_mem_of_lt geno m hm []
   have hgi : (geno.getD m []).getD i [] ∈ geno.getD m [] := getD_mem_of_lt _ i hi' []
   have hut : ucols.getD t [] ∈ ucols := getD_mem_of_lt ucols t ht []
@@ -99,14 +120,14 @@ theorem ohvDef_sound (geno : List (List (List α))) (ucols : List (List α)) (bn
   simp only [Spec.ohvDef, Bool.and_eq_true, beq_iff_eq, List.all_eq_true, List.mem_range]
   refine ⟨by simp [ohvmatModel], ?_⟩
   intro t ht s hs
-  exact approx_of_eq _ _ (ohvmatModel_entry geno ucols bnds xm s t hs ht)
+  exact approxS_of_eq _ _ _ (ohvmatModel_entry geno ucols bnds xm s t hs ht)
 
 theorem opvDef_sound (geno : List (List (List α))) (ucols : List (List α)) (bnds : List (Nat × Nat))
     (x : List Nat) :
     Spec.opvDef geno ucols bnds x (ucols.map (fun u => opvLatent (blockTable geno u bnds) bnds.length x)) = true := by
   simp only [Spec.opvDef, List.length_map, beq_self_eq_true, Bool.true_and, List.all_eq_true, List.mem_range]
   intro t ht
-  apply approx_of_eq
+  apply approxS_of_eq
   rw [getD_map_lt ucols _ t ht 0 [], opvLatent_eq, neg_neg]
 
 theorem ohvLatent_eq_mean (col : List α) (x : List Nat) (hx : ∀ i ∈ x, i < col.length) :
@@ -128,12 +149,12 @@ theorem ohvLatent_eq_mean (col : List α) (x : List Nat) (hx : ∀ i ∈ x, i < 
 def ohvLatentModel (ohvmat : List (List α)) (ntrait : Nat) (x : List Nat) : List α :=
   (List.range ntrait).map (fun t => ohvLatent (ohvmat.map (fun row => row.getD t 0)) x)
 
-theorem ohvLatentDef_sound (ohvmat : List (List α)) (ntrait : Nat) (x : List Nat)
+theorem ohvLatentDef_sound (sc : List α) (ohvmat : List (List α)) (ntrait : Nat) (x : List Nat)
     (hx : ∀ i ∈ x, i < ohvmat.length) :
-    Spec.ohvLatentDef ohvmat x (ohvLatentModel ohvmat ntrait x) = true := by
+    Spec.ohvLatentDef sc ohvmat x (ohvLatentModel ohvmat ntrait x) = true := by
   simp only [Spec.ohvLatentDef, ohvLatentModel, List.length_map, List.length_range, List.all_eq_true, List.mem_range]
   intro t ht
-  apply approx_of_eq
+  apply approxS_of_eq
   rw [getD_map_lt (List.range ntrait) _ t (by simpa using ht) 0 0]
   have ht' : (List.range ntrait).getD t 0 = t := by
     simp [List.getD_eq_getElem?_getD, List.getElem?_eq_getElem (by simpa using ht : t < (List.range ntrait).length)]
@@ -149,7 +170,7 @@ theorem gbDef_sound (geno : List (List (List α))) (ucols : List (List α)) (bnd
       (ucols.map (fun u => gbLatent (blockTable geno u bnds) bnds.length x nbest)) = true := by
   simp only [Spec.gbDef, List.length_map, beq_self_eq_true, Bool.true_and, List.all_eq_true, List.mem_range]
   intro t ht
-  apply approx_of_eq
+  apply approxS_of_eq
   rw [getD_map_lt ucols _ t ht 0 []]
   unfold gbLatent
   have hl : (blockTable geno (ucols.getD t []) bnds).length = geno.length := by simp [blockTable]
